@@ -239,3 +239,68 @@ Proof.
   exists 10, [Item 1 true [Item 2 true []]; Item 3 true []].
   vm_compute. discriminate.
 Qed.
+
+(** * Destinations: the writer's page-number translation (fix_dest_page_reference) *)
+From Coq Require Import Lia.
+
+Lemma index_of_nth : forall ids n id, NoDup ids -> nth_error ids n = Some id ->
+  index_of id ids = Some (N.of_nat n).
+Proof.
+  induction ids as [|x r IH]; intros n id Hnd Hn.
+  - destruct n; discriminate.
+  - inversion Hnd as [|? ? Hnotin Hnd']; subst. destruct n as [|m]; cbn [nth_error] in Hn.
+    + injection Hn as ->. cbn [index_of]. rewrite N.eqb_refl. reflexivity.
+    + cbn [index_of]. destruct (x =? id) eqn:E.
+      * apply N.eqb_eq in E. subst. exfalso. apply Hnotin. eapply nth_error_In. exact Hn.
+      * rewrite (IH m id Hnd' Hn). cbn [option_map]. f_equal. lia.
+Qed.
+
+(** FIXED code: a destination authored by page number p of the document is written as a
+    reference that resolves to page p (page object ids are pairwise distinct) *)
+Theorem page_number_dest_resolves : forall page_ids p,
+  NoDup page_ids -> (N.to_nat p < length page_ids)%nat ->
+  dest_resolves (Some p) (written_page_number page_ids p) = true.
+Proof.
+  intros ids p Hnd Hlt. unfold written_page_number, resolve_destination_page.
+  replace (Z.of_N p <? 0)%Z with false by (symmetry; apply Z.ltb_ge; lia).
+  replace (Z.to_nat (Z.of_N p)) with (N.to_nat p) by lia.
+  destruct (nth_error ids (N.to_nat p)) as [id|] eqn:E.
+  - cbn [read_target]. rewrite (index_of_nth ids _ id Hnd E). cbn [dest_resolves].
+    rewrite N2Nat.id. apply N.eqb_refl.
+  - apply nth_error_None in E. lia.
+Qed.
+
+(** a number that names no page of the document is left as authored *)
+Theorem page_number_out_of_range_untouched : forall page_ids p,
+  (length page_ids <= N.to_nat p)%nat ->
+  resolve_destination_page page_ids (OInt (Z.of_N p)) = OInt (Z.of_N p).
+Proof.
+  intros ids p H. unfold resolve_destination_page.
+  replace (Z.of_N p <? 0)%Z with false by (symmetry; apply Z.ltb_ge; lia).
+  replace (Z.to_nat (Z.of_N p)) with (N.to_nat p) by lia.
+  apply nth_error_None in H. rewrite H. reflexivity.
+Qed.
+
+Theorem negative_and_refs_untouched : forall page_ids,
+  (forall n, (n < 0)%Z -> resolve_destination_page page_ids (OInt n) = OInt n)
+  /\ (forall id, resolve_destination_page page_ids (ORef id) = ORef id)
+  /\ resolve_destination_page page_ids OOther = OOther.
+Proof.
+  intro ids. repeat split. intros n Hn. unfold resolve_destination_page.
+  replace (n <? 0)%Z with true by (symmetry; apply Z.ltb_lt; exact Hn). reflexivity.
+Qed.
+
+(** record of the PINNED behaviour (known finding C28-dest-bare-page-number, fixed): without the
+    translation no destination authored by page number resolves *)
+Theorem pinned_page_number_dest_unresolved : forall page_ids p,
+  dest_resolves (Some p) (written_page_number_pinned page_ids p) = false.
+Proof. reflexivity. Qed.
+
+Example page_number_dest_nonvacuous :
+  NoDup [4; 9; 14] /\ (N.to_nat 2 < length [4; 9; 14])%nat
+  /\ written_page_number [4; 9; 14] 2 = WRef (Some 2)
+  /\ written_page_number [4; 9; 14] 3 = WInt 3.
+Proof.
+  split; [repeat constructor; cbn; intuition discriminate|].
+  split; [cbn; lia|]. split; vm_compute; reflexivity.
+Qed.
